@@ -152,11 +152,15 @@ pub struct SpawnOpts {
     pub env: Vec<(String, String)>,
     pub pin_cpu: Option<usize>,
     pub valgrind: bool,
+    /// run under `strace -f -e inject=write:delay_exit=<us>`: every write system call of either
+    /// thread is followed by a delay, which stretches the gap between two writes that belong
+    /// together (a schedule perturbation at a point where the kernel may pre-empt anyway)
+    pub strace_write_delay_us: Option<u32>,
 }
 
 impl Default for SpawnOpts {
     fn default() -> Self {
-        SpawnOpts { env: vec![], pin_cpu: None, valgrind: false }
+        SpawnOpts { env: vec![], pin_cpu: None, valgrind: false, strace_write_delay_us: None }
     }
 }
 
@@ -166,6 +170,11 @@ impl Engine {
         let mut cmd = if opts.valgrind {
             let mut c = Command::new("valgrind");
             c.args(["--quiet", "--error-exitcode=97", "--leak-check=no", &format!("--log-file={}/valgrind.log", workdir.display())]);
+            c.arg(bin);
+            c
+        } else if let Some(us) = opts.strace_write_delay_us {
+            let mut c = Command::new("strace");
+            c.args(["-f", "-q", "-e", "trace=write", "-e", &format!("inject=write:delay_exit={}", us), "-o", "/dev/null"]);
             c.arg(bin);
             c
         } else if let Some(cpu) = opts.pin_cpu {
@@ -181,7 +190,22 @@ impl Engine {
             cmd.env(k, v);
         }
         let mut child = cmd.spawn().map_err(|e| format!("spawn {}: {}", bin.display(), e))?;
-        let pid = child.id();
+        let mut pid = child.id();
+        if opts.strace_write_delay_us.is_some() {
+            // the engine is strace's child: /proc verdicts must look at the engine itself
+            let t_end = Instant::now() + Duration::from_secs(2);
+            loop {
+                let kids = std::fs::read_to_string(format!("/proc/{}/task/{}/children", child.id(), child.id())).unwrap_or_default();
+                if let Some(k) = kids.split_whitespace().next().and_then(|k| k.parse::<u32>().ok()) {
+                    pid = k;
+                    break;
+                }
+                if Instant::now() > t_end {
+                    break;
+                }
+                std::thread::sleep(Duration::from_millis(2));
+            }
+        }
         let stdin = child.stdin.take();
         let so = child.stdout.take().unwrap();
         let se = child.stderr.take().unwrap();
